@@ -31,7 +31,7 @@ manifest = dict(
                baseline_off_cmd='cd /repo && /venv/bin/python -m pytest -ra -q -p no:cacheprovider --timeout=900 --continue-on-collection-errors',
                source_commits=[], add_only=True),
     engines=[
-        dict(name='A-crosshair', path='/verif/fvrun', serves_properties=[p for p in ALL if p in CLAIMS and 'A-' in CLAIMS[p]['engine']],
+        dict(name='A-crosshair', path='/verif/fvrun', serves_properties=[p for p in ALL if p in CLAIMS and 'A-crosshair' in CLAIMS[p]['engine']],
              kind_free_text='CrossHair 0.0.110 symbolic execution of the real fiddle modules with z3, partitioned into cubes (generated wrapper modules), reachability twins, plain-interpreter replay'),
         dict(name='B-direct-smt', path='/verif/engines', serves_properties=[p for p in ALL if p in CLAIMS and 'B' in CLAIMS[p]['engine'].replace('A-crosshair', '')],
              kind_free_text='encodings regenerated from the current source on every run: re._parser -> z3 regex (B1), pure-Python codec stub inside CrossHair (B2), AST -> transition system -> z3 BMC with symbolic schedule (B3)'),
